@@ -69,6 +69,14 @@ def main():
                 for dn in ['None'] + list(klass.deformation_names):
                     for rot in (False, True):
                         reqs.append((name, cls, size, dn, rot))
+    # both ends of the size menu: the largest L offered, with and without the coprime box (2-D codes; the 3-D tables at L = 12
+    # have tens of millions of entries)
+    Lmax = max(res['menu']['L']) if res['menu']['L'] else 12
+    for name, klass in G.codes.items():
+        if klass.dimension == 2:
+            for size in ((Lmax + 1, Lmax), (Lmax, Lmax)):
+                if dc.supported(klass.__name__, size) and (tier == 'thorough' or klass.__name__ in ('Toric2DCode', 'RotatedPlanar2DCode', 'Color666PlanarCode')):
+                    reqs.append((name, klass.__name__, size, 'None', False))
     rng.shuffle(reqs)
     # make sure sequences "deformed then None on the same code and size" occur on the one server
     extra = []
